@@ -138,8 +138,9 @@ Proof. vm_compute. repeat split. Qed.
 (* ------------------------------------------------------------------ round 4: fault paths and pooled OBJECTS
    [protocols4] = the stream reader ReadMsgFromTCP with failing header / body reads (two pool buffers + the message),
    the UDP upstream's TCP fallback with failing legs (two pooled messages), the hand-over of the reply of the reuse
-   exchange against the caller's cancellation, and the header-only reply of makeEmptyRespM (two pooled messages and their
-   pooled Question objects) — each as the code is.  Objects are pool buffers AND sync.Pool structs (Msg, Question);
+   exchange against the caller's cancellation, the header-only reply of makeEmptyRespM (two pooled messages and their
+   pooled Question objects), and the prefetch goroutine that outlives the handler of a cache hit (it owns a copy of the
+   question made before it starts) — each as the code is.  Objects are pool buffers AND sync.Pool structs (Msg, Question);
    the environment recycles every released one. *)
 Theorem C20_fault_paths_and_objects_safe : forall (P : proto) (s : mstate),
   In P protocols4 -> reach P s -> viol s = 0.
@@ -181,6 +182,16 @@ Theorem C20_emptyresp_shared_question_refuted :
 Proof. exact own4_emptyresp_shared_question_refuted. Qed.
 Print Assumptions C20_emptyresp_shared_question_refuted.
 
+(* a prefetch goroutine that makes its copy of the question itself ("off the hot path") reads the handler's question after
+   the handler's deferred ReleaseQuestion: schedule hit, go, handler returns, [another request takes the Question,] copy *)
+Theorem C20_prefetch_lazy_copy_refuted :
+  (exists s, own_run (Pown4_prefetch true) (own_init (Pown4_prefetch true)) (own4_sched 10 1) = Some s /\
+             reach (Pown4_prefetch true) s /\ viol s = 1) /\
+  (exists s, own_run (Pown4_prefetch true) (own_init (Pown4_prefetch true)) (own4_sched 10 2) = Some s /\
+             reach (Pown4_prefetch true) s /\ viol s = 2).
+Proof. exact own4_prefetch_lazy_copy_refuted. Qed.
+Print Assumptions C20_prefetch_lazy_copy_refuted.
+
 (* non-vacuity: the named schedules run to completion on the code as it is, the state spaces are not trivial, and the
    certificate check rejects every variant *)
 Example C20_example_round4 :
@@ -188,6 +199,7 @@ Example C20_example_round4 :
   map (own4_verdict 2) [0;1;2;3;4] = [Some 0; Some 0; Some 0; Some 0; Some 0] /\
   map (own4_verdict 5) [0;1;2] = [Some 0; Some 0; Some 0] /\
   map (own4_verdict 7) [0;1] = [Some 0; Some 0] /\
-  map (fun P => 30 <? length (states P)) protocols4 = [true; true; true; true] /\
-  map (fun n => check (own4_proto n) (states (own4_proto n))) [1;3;4;6;8] = [false; false; false; false; false].
+  map (own4_verdict 9) [0;1;2] = [Some 0; Some 0; Some 0] /\
+  map (fun P => 30 <? length (states P)) protocols4 = [true; true; true; true; true] /\
+  map (fun n => check (own4_proto n) (states (own4_proto n))) [1;3;4;6;8;10] = [false; false; false; false; false; false].
 Proof. vm_compute. repeat split. Qed.
